@@ -928,7 +928,8 @@ func (e *c10env) runCase(idx int, wc *wcase) (Sx, Sx, error) {
 
 var c10Names = []string{"a", "B", "_", "é", "-x", "a b", " lead", "~", "z", "A", "b", "aa", "a.pem", "Z", "0",
 	"authorized_keys", "known_hosts", "x.der", "e", "éé", "a-", "a_", "aB", "-", "--", "-r", "\xff", "x=y",
-	"a\nb", "-rf", "\xc3", "a\tb", c10LongName, "a.pub", "c.der", "t.jwt"}
+	"a\nb", "-rf", "\xc3", "a\tb", c10LongName, "a.pub", "c.der", "t.jwt",
+	"50%off.txt", "%s", "%d%%", "100%", "%!v(BADINDEX)", "a%20b"}
 
 // a name of NAME_MAX bytes
 var c10LongName = strings.Repeat("n", 250) + ".nnnn"
